@@ -52,6 +52,37 @@ def http (inp : Json) : R Res := do
         else if doAclCheck method path (kind == "admin") a then "served" else "403"
   return { m := Json.str r, nt := decide (!skipped path ∧ kind ≠ "admin") }
 
+/-- a sequence of requests by one client: every request is decided on its own, with the ACL in force at that moment. -/
+def seq (inp : Json) : R Res := do
+  let kind ← getStr inp "token"
+  let cfg : Cfg := { jwks := false, audiences := ["node:node1"], issuers := ["node:node1"] }
+  let mut a ← parseAcl inp
+  let mut res : Array Json := #[]
+  let mut i := 0
+  let mut denied := 0
+  let mut served := 0
+  for rq in (← getArr inp "reqs") do
+    match getOpt inp "change" with
+    | some ch =>
+      if (← getNat ch "at") == i then
+        a ← if getBoolD ch "delete" false then pure [] else parseAcl ch
+    | none => pure ()
+    let r ← rq.getArr?
+    let method ← asStr r[0]!; let path ← asStr r[1]!
+    let d :=
+      if skipped path then "served"
+      else match tokOf kind with
+        | none => "401"
+        | some t =>
+          if !validate cfg t then "401"
+          else if path == "/" then "served"
+          else if doAclCheck method path (kind == "admin") a then "served" else "403"
+    if d == "403" then denied := denied + 1
+    if d == "served" then served := served + 1
+    res := res.push (Json.str d)
+    i := i + 1
+  return { m := Json.arr res, nt := decide (denied ≥ 1 ∧ served ≥ 1) }
+
 def parseAcl1 (j : Json) : R (List Ac) := do
   (← j.getArr?).toList.mapM fun j => do
     return { resource := ← getStr j "r", action := ← getStr j "a", deny := ← getBool j "d" }
@@ -91,6 +122,7 @@ def handle (k : String) (inp : Json) : Option (R Res) :=
   | "c16.acl" => some (acl inp)
   | "c16.http" => some (http inp)
   | "c16.persist" => some (persistK inp)
+  | "c16.seq" => some (seq inp)
   | _ => none
 
 end Hub.Drv.C16
